@@ -146,7 +146,11 @@ def task(W, payload):
         for op in ops:
             if op["op"] == "stratify":
                 if op["kind"] == "plain": smap[op["name"]] = "zyxwvu"[plain_sorted.index(op["name"]) % 6] + op["name"] + "q"
-                if op["kind"] != "age":
+                if op["kind"] == "strain":
+                    # the renaming REVERSES the alphabetical order of the strain names
+                    srt = sorted(op["strata"])
+                    for s in op["strata"]: vmap[(op["name"], s)] = "zyxwvu"[srt.index(s) % 6] + s
+                elif op["kind"] != "age":
                     for s in op["strata"]: vmap[(op["name"], s)] = s + "w"
         def rn_strata(flt):
             return [[smap.get(k, k), vmap.get((k, v), v)] for k, v in (flt or [])]
